@@ -25,7 +25,7 @@ ASSUMPTIONS = ["patches run on deep copies; the original is snapshotted", "docum
 
 def plan(tier, seed):
     n = 15 if tier == "quick" else 46
-    return [{"kind": "flags"}, {"kind": "scale"}] + [{"n": 600 if tier == "quick" else 15000} for _ in range(n)]
+    return [{"kind": "flags"}, {"kind": "scale"}, {"kind": "threads", "rounds": 18 if tier == "quick" else 180}] + [{"n": 600 if tier == "quick" else 15000} for _ in range(n)]
 
 
 def edit(doc, parts, what, new=None):
@@ -363,6 +363,56 @@ def in_place_sequence(ctx, text, doc, orig):
     return None
 
 
+def run_threads(ctx, rounds):
+    """ONE compiled query (slices with negative bounds and steps, wildcards, filters) used by several threads at once, each
+    over its own document whose arrays have other lengths than the other threads'; yields injected inside the selectors.
+    For every match each thread gets: the pointer must address the node whose value the match carries (test passes with
+    the matched value), and replace / remove through it must give the model's document."""
+    import jsonpath
+    from rt import threads
+
+    texts = ["$.rows[*][-1:]", "$.rows[*][-2:]", "$.rows[*][1::2]", "$.rows[*][::-1]", "$..[1:3]", "$.rows[?@[0] >= 0][-1]", "$.rows[*][:-1]", "$.rows[-1:][0:2]", "$..[-1:]"]
+    for rnd in range(rounds):
+        text = texts[rnd % len(texts)]
+        q = jsonpath.compile(text)
+        errors = []
+
+        def worker(wid, rng):
+            try:
+                for rep in range(6):
+                    n = 2 + (wid + rep) % 5
+                    doc = {"rows": [["w%d-r%d-%d-%d" % (wid, rep, i, j) for j in range(n + i % 2)] for i in range(2 + wid % 3)], "1": "sibling", "~/": "sibling"}
+                    for r_ in doc["rows"]:
+                        r_.insert(0, len(r_))
+                    ms = list(q.finditer(doc))
+                    for m in ms[:8]:
+                        parts = tuple(m.parts)
+                        ptr = m.pointer()
+                        for what in ("test", "replace", "remove"):
+                            if what == "test":
+                                patch, want = jsonpath.JSONPatch().test(ptr, copy.deepcopy(m.obj)), copy.deepcopy(doc)
+                            elif what == "replace":
+                                patch, want = jsonpath.JSONPatch().replace(ptr, {"NEW": wid}), edit(doc, parts, "replace", {"NEW": wid})
+                            else:
+                                patch, want = jsonpath.JSONPatch().remove(ptr), edit(doc, parts, "remove")
+                            o = impl.call(patch.apply, copy.deepcopy(doc))
+                            if not o.ok or not strict_eq(o.value, want):
+                                errors.append({"text": text, "thread": wid, "op": what, "parts": list(parts), "pointer": str(ptr), "matched_value": canon(m.obj)[:80], "document": canon(doc)[:300], "outcome": o.desc() if not o.ok else canon(o.value)[:300]})
+                                return
+            except Exception as e:  # noqa: BLE001
+                errors.append({"text": text, "thread": wid, "raised": "%s: %s" % (type(e).__name__, e)})
+        st = threads.stress(worker, nthreads=6, files=("selectors.py", "path.py", "match.py", "filter.py"), seed=ctx.seed * 131 + rnd, prob=0.12)
+        ctx.evaluation(36)
+        ctx.case(h("threads", text, st["signature"]), True)
+        ctx.count("evaluations_of_one_compiled_query_from_threads", 36)
+        ctx.count("injected_yields", st["yields"])
+        if st["timed_out"]:
+            ctx.notes.append("a thread round timed out (inconclusive)")
+        if errors:
+            ctx.violation("match-pointer-from-a-query-shared-by-threads-edits-wrong-node", {"kind": "threads"}, errors[0])
+            return
+
+
 def flags_history(ctx):
     """Matches of members whose names contain %XX or \\uXXXX sequences, edited through the
     pointer's string form by a default patch AFTER differently configured patches saw the same text."""
@@ -385,6 +435,9 @@ def run(spec, ctx):
     r = ctx.rng
     if spec.get("kind") == "flags":
         flags_history(ctx)
+        return
+    if spec.get("kind") == "threads":
+        run_threads(ctx, spec["rounds"])
         return
     if spec.get("kind") == "scale":
         # edits far into long arrays (multi-digit indices, sizes around powers of two) and far down deep documents
@@ -425,6 +478,9 @@ def finalize(m, tier):
 
 
 def replay(case, ctx):
+    if case.get("kind") == "threads":
+        run_threads(ctx, 90)
+        return
     if case.get("flags") or case.get("class") == "flags-history":
         flags_history(ctx)
         return
